@@ -523,7 +523,7 @@ def analyse(ck, prog=None):
                 # the summation variable ranges over all of both vectors: their zip in full, or 0..2n when both hold one entry per slot
                 fse, fsa = v.filled(SE), v.filled(SA)
                 per_slot = fse is not None and fsa is not None and fse[1] == slot and fsa[1] == slot
-                whole = vj[2] in (("minlen", SE, SA), ("minlen", SA, SE)) or (per_slot and (vj == slot or vj[2] in (("len", SE), ("len", SA))))
+                whole = vj[2] in (("minlen", SE, SA), ("minlen", SA, SE)) or (per_slot and (vj[1:3] == slot[1:3] or vj[2] in (("len", SE), ("len", SA))))
                 ob.add({"C08"}, whole, "TERM", "pb/group/sum-over-all", "the summation ranges over every (slot_exits[j], slot_amounts[j]) pair (the zip of both vectors, or 0..2n) without take/skip", loc(e_s), T.show(vj))
                 # is_duplicate
                 gd = False
